@@ -190,7 +190,7 @@ func (p *ProjectRunner) runProcess(config *types.ProcessConfig) {
 		log.Error().Msgf("Error: Can't get log: %s using empty buffer", err.Error())
 		procLog = pclog.NewLogBuffer(0)
 	}
-	procState, _ := p.GetProcessState(config.ReplicaName)
+	procState := p.getProcessStatePtr(config.ReplicaName)
 	hasMain := p.mainProcess != ""
 	isMain := hasMain && config.Name == p.mainProcess
 	printLogs := !hasMain && !p.isTuiOn
@@ -359,8 +359,20 @@ func (p *ProjectRunner) GetProcessState(name string) (*types.ProcessState, error
 			log.Error().Msgf("Error: process %s doesn't exist", name)
 			return nil, fmt.Errorf("can't get state of process %s: no such process", name)
 		}
-		return state, nil
+		stateCopy := *state
+		return &stateCopy, nil
 	}
+}
+
+// getProcessStatePtr returns the state object of a process itself, nil if
+// there is none; GetProcessState() hands out copies
+func (p *ProjectRunner) getProcessStatePtr(name string) *types.ProcessState {
+	if proc := p.getRunningProcess(name); proc != nil {
+		return proc.getStatePtr()
+	}
+	p.statesMutex.Lock()
+	defer p.statesMutex.Unlock()
+	return p.processStates[name]
 }
 
 func (p *ProjectRunner) getProcessStateData(name string, filter filterFn) error {
@@ -896,8 +908,8 @@ func (p *ProjectRunner) renameProcess(name string, newName string) {
 		p.processLogs[newName] = logs
 		p.logsMutex.Unlock()
 	}
-	state, err := p.GetProcessState(name)
-	if err == nil {
+	state := p.getProcessStatePtr(name)
+	if state != nil {
 		p.statesMutex.Lock()
 		defer p.statesMutex.Unlock()
 		delete(p.processStates, name)
